@@ -79,6 +79,7 @@ fn main() {
         "framebuf" => framebuf::run(&args),
         "url" => url::run(&args),
         "handover" => handover::run(&args),
+        "backpressure" => handover::run_resume(&args),
         "slots-boundary-child" => slots::boundary_child(&args.rest[0]),
         "replay" => {
             let path = args.rest.first().cloned().unwrap_or_else(|| usage());
